@@ -61,6 +61,15 @@ def gen(rng, tier):      # noqa: F811
             for kind in ("add", "addne", "addap"):
                 yield {"mode": True, "ops": [[kind, p, 9]], "doc": doc}
             yield {"mode": True, "ops": [["addne", p, 9], ["addne", p, 8], ["add", p, 7]], "doc": doc}
+    # one container value used by two operations, then modified in one of the two places by a later operation
+    for empty in ([], {}, [1], {"k": []}):
+        inner = "/-" if isinstance(empty, list) else "/n"
+        for k1 in ("add", "addne", "addap", "replace"):
+            for k2 in ("add", "addne", "addap", "replace"):
+                doc = {"a": 0, "b": 0} if "replace" in (k1, k2) else {}
+                ops = [[k1, "/a", deep(empty)], [k2, "/b", deep(empty)], ["add", "/a" + inner, 1]]
+                yield {"mode": True, "ops": ops, "doc": doc}
+                yield {"mode": True, "ops": ops + [["test", "/b", deep(empty)], ["copy", "/b", "/c"], ["add", "/c" + inner, 2]], "doc": doc}
     # escape decoding switched off for the patch: the builder methods, the list-of-dicts form and the JSON text form must
     # all read a path containing a backslash literally
     bs_docs = [{"k\\u0041": 1, "kA": 2}, {"a\\nb": [1], "a\nb": [2]}, {"x": {"\\u00e9": 1, "é": 2}}, {"\\": 1, "\\\\": 2}]
@@ -88,12 +97,26 @@ def _ids(v, acc):
     return acc
 
 
-def _build_with_builder(ops, mode):
+def _share(dicts):
+    """equal container values of one operation list are ONE Python object (the caller reused a variable): the patch must
+    still act as the JSON document form, where every value is its own"""
+    seen = {}
+    for d in dicts:
+        if isinstance(d.get("value"), (list, dict)):
+            k = repr(SX.canon(d["value"]))
+            if k in seen:
+                d["value"] = seen[k]
+            else:
+                seen[k] = d["value"]
+    return dicts
+
+
+def _build_with_builder(ops, mode, dicts=None):
     p = JSONPatch(unicode_escape=mode)
-    for o in ops:
+    for i, o in enumerate(ops):
         k = o[0]
         if k in ("add", "addne", "addap", "replace", "test"):
-            getattr(p, k)(o[1], deep(o[2]))
+            getattr(p, k)(o[1], dicts[i]["value"] if dicts else deep(o[2]))
         elif k == "remove":
             p.remove(o[1])
         else:
@@ -102,13 +125,13 @@ def _build_with_builder(ops, mode):
 
 
 def impl(case):
-    dicts = [P.op_to_dict(o) for o in case["ops"]]
+    dicts = _share([P.op_to_dict(o) for o in case["ops"]])
     caller_before = SX.canon(dicts)
     out = {}
     try:
         p_doc = JSONPatch(dicts, unicode_escape=case["mode"])
         p_text = JSONPatch(json.dumps([P.op_to_dict(o) for o in case["ops"]]), unicode_escape=case["mode"])
-        p_bld = _build_with_builder(case["ops"], case["mode"])
+        p_bld = _build_with_builder(case["ops"], case["mode"], _share([P.op_to_dict(o) for o in case["ops"]]))
         p_re = JSONPatch(p_doc.asdicts(), unicode_escape=case["mode"])
     except Exception as e:  # noqa: BLE001
         return {"build": ["err", exc_name(e)]}
